@@ -7,7 +7,7 @@ import re
 import z3
 from z3 import BitVecVal, BoolVal, is_bv, is_bool, is_fp
 from .core import Agg, EnumV, Cell, Ref, UNIT, Unmodelled, conc, sconc, ok, err, BoxV
-from .models_std import model, Str, Bytes, as_str, str_concat, Seq, lift_str
+from .models_std import model, Str, Bytes, as_str, str_concat, Seq, lift_str, SpecialStr
 from .mirparse import INT_W, SIGNED
 
 
@@ -33,7 +33,7 @@ class Formatter:
         self.out = Str('')
 
 
-class NumStr(Str):
+class NumStr(SpecialStr):
     """decimal rendering of a bit-vector integer, with concrete prefix/suffix text"""
     __slots__ = ('bv', 'signed', 'pre', 'suf')
 
@@ -49,6 +49,99 @@ class NumStr(Str):
 
     def length(self, ctx):
         raise Unmodelled('length of NumStr')
+
+    def ndigits(self):
+        """number of characters of the decimal rendering (incl. a minus sign), as a 64-bit term"""
+        w = self.bv.size()
+        v = self.bv
+        neg = (v < 0) if self.signed else z3.BoolVal(False)
+        mag = z3.If(neg, -v, v) if self.signed else v
+        n = z3.BitVecVal(1, 64)
+        p = 10
+        k = 1
+        while p < (1 << w):
+            n = z3.If(z3.UGE(mag, z3.BitVecVal(p, w)), z3.BitVecVal(k + 1, 64), n)
+            p *= 10; k += 1
+        # build from the largest threshold down so that the outermost test wins
+        n = z3.BitVecVal(1, 64)
+        ths = []
+        p = 10; k = 1
+        while p < (1 << w):
+            ths.append((p, k + 1)); p *= 10; k += 1
+        for p, kk in ths:
+            n = z3.If(z3.UGE(mag, z3.BitVecVal(p, w)), z3.BitVecVal(kk, 64), n)
+        return z3.If(neg, n + 1, n) if self.signed else n
+
+    def length(self, ctx):
+        return self.ndigits() + z3.BitVecVal(len((self.pre + self.suf).encode('utf-8')), 64)
+
+    def _with(self, pre, suf):
+        return NumStr(self.bv, self.signed, pre, suf)
+
+    def sop(self, ctx, name, args, callee, *extra):
+        from .models_std import as_str
+        from .core import conc
+        if name == 'len':
+            return self.length(ctx)
+        if name == 'is_empty':
+            return z3.BoolVal(False)
+        if name == 'to_lower':
+            return self._with(self.pre.lower(), self.suf.lower())
+        if name == 'to_upper':
+            return self._with(self.pre.upper(), self.suf.upper())
+        if name == 'trim':
+            if (self.pre and self.pre != self.pre.lstrip()) or (self.suf and self.suf != self.suf.rstrip()):
+                raise Unmodelled('trim of decorated numeral')
+            return self
+        if name == 'replace':
+            a = as_str(ctx, args[1]); b = as_str(ctx, args[2])
+            if a.s is None or b.s is None or any(ch.isdigit() or ch == '-' for ch in a.s) or a.s == '':
+                raise Unmodelled('replace on numeral')
+            return self._with(self.pre.replace(a.s, b.s), self.suf.replace(a.s, b.s))
+        if name in ('ends_with', 'starts_with', 'contains'):
+            p = ctx.deref(args[1])
+            if z3.is_bv(p):
+                p = Str(chr(conc(p)))
+            p = as_str(ctx, p)
+            if p.s is None:
+                raise Unmodelled(name + ' with symbolic pattern on numeral')
+            t = p.s
+            if t == '':
+                return z3.BoolVal(True)
+            if name == 'ends_with':
+                if self.suf:
+                    if len(t) <= len(self.suf):
+                        return z3.BoolVal(self.suf.endswith(t))
+                    raise Unmodelled('ends_with longer than the suffix of a numeral')
+                if not t[-1].isdigit():
+                    return z3.BoolVal(False)
+                raise Unmodelled('ends_with digits on numeral')
+            if name == 'starts_with':
+                if self.pre:
+                    if len(t) <= len(self.pre):
+                        return z3.BoolVal(self.pre.startswith(t))
+                    raise Unmodelled('starts_with longer than the prefix of a numeral')
+                if t[0] == '-' and len(t) == 1 and self.signed:
+                    return self.bv < 0
+                if not (t[0].isdigit() or t[0] == '-'):
+                    return z3.BoolVal(False)
+                raise Unmodelled('starts_with digits on numeral')
+            if not any(ch.isdigit() or ch == '-' for ch in t):
+                return z3.BoolVal(t in self.pre or t in self.suf)
+            raise Unmodelled('contains digits on numeral')
+        if name == 'slice':
+            kind = extra[0]
+            rng = args[1]
+            if kind == 'RangeTo':
+                idx = rng.f[0]
+                j = conc(z3.simplify(self.length(ctx) - idx))
+                if j is None:
+                    raise Unmodelled('slice of numeral at a symbolic offset')
+                sb = self.suf.encode('utf-8')
+                if 0 <= j <= len(sb):
+                    return self._with(self.pre, sb[:len(sb) - j].decode('utf-8'))
+            raise Unmodelled('slice of numeral (%s)' % kind)
+        raise Unmodelled('%s on numeral' % name)
 
     def parse_hook(self, ctx, ty):
         if self.pre or self.suf:
@@ -149,7 +242,7 @@ def render_value(ctx, v, kind='display', ty=''):
     raise Unmodelled('%s of %r (%s)' % (kind, type(v).__name__, ty))
 
 
-class FloatStr(Str):
+class FloatStr(SpecialStr):
     """Display text of a symbolic f64 (uninterpreted; parse::<f64> gives the value back)"""
     __slots__ = ('fp', 'pre', 'suf')
 
